@@ -1,13 +1,140 @@
 /-
-  C05 — candidate clusters group protoclusters by the documented kinds (property theorems only).
--/
-import ASV.Model.Candidates
-import ASV.Spec.Candidates
-namespace ASV.C05
-open ASV ASV.CC
+  C05 — candidate clusters group protoclusters by the documented kinds.
+  Property theorems only; helper lemmas in ASV/Proofs/{MergeSets,Candidates,Coverage,Members,SpecBridge}.lean.
 
-/-- no protoclusters, no candidates -/
-theorem formation_empty (wrap : Option Int) : formation [] wrap = .ok [] := by
-  rfl
+  Model: ASV/Model/Candidates.lean (formation.py after the repairs D16, D19, D501–D506).
+  `formation ps wrap` is `create_candidates_from_protoclusters(protoclusters, circular_wrap_point)`;
+  `wrap = none` is a linear record.  Protoclusters carry their index in the input as identity, so the
+  only hypothesis on the input is `ps.Nodup` (no protocluster object supplied twice), and only where
+  counting is involved.  Every theorem holds for all inputs, linear and circular, of any size.
+-/
+import ASV.Proofs.SpecBridge
+namespace ASV.C05
+open ASV ASV.CC ASV.CC.Spec
+
+/-! ### 1. `_merge_sets` computes the partition into chain classes (generic) -/
+
+/-- The sets returned by `_merge_sets` are pairwise disjoint and non-empty, their union is the union
+    of the inputs, and two elements lie in one returned set iff a chain of input sets links them
+    (consecutive sets of the chain share an element).  Unconditional after fix D16. -/
+theorem mergeSets_is_partition {α : Type} [DecidableEq α] (key : List α → Int) (G : List (List α)) :
+    DisjointSets (mergeSetsCore key G) ∧
+    (∀ r, r ∈ mergeSetsCore key G → r ≠ [] ∧ r.Nodup) ∧
+    (∀ x, (∃ r, r ∈ mergeSetsCore key G ∧ x ∈ r) ↔ ∃ g, g ∈ G ∧ x ∈ g) ∧
+    (∀ a b, (∃ r, r ∈ mergeSetsCore key G ∧ a ∈ r ∧ b ∈ r) ↔ Linked G a b) :=
+  ⟨(mergeSetsCore_spec key G).1,
+   fun r hr => ⟨(mergeSetsCore_spec key G).2.1 r hr, mergeSetsCore_nodup key G r hr⟩,
+   mergeSetsCore_union key G,
+   (mergeSetsCore_spec key G).2.2⟩
+
+/-- the same for groups of protoclusters as formation uses them (each group additionally sorted) -/
+theorem mergeSets_protoclusters (G : List (List Proto)) :
+    (∀ x, (∃ r, r ∈ mergeSets G ∧ x ∈ r) ↔ ∃ g, g ∈ G ∧ x ∈ g) ∧
+    (∀ a b, (∃ r, r ∈ mergeSets G ∧ a ∈ r ∧ b ∈ r) ↔ Linked G a b) := by
+  refine ⟨mergeSets_union G, ?_⟩
+  intro a b
+  rw [← (mergeSetsCore_spec groupKey G).2.2 a b]
+  constructor
+  · rintro ⟨r, hr, ha, hb⟩
+    obtain ⟨r0, h0, e⟩ := mem_mergeSets.1 hr
+    subst e
+    exact ⟨r0, h0, mem_sortProtos.1 ha, mem_sortProtos.1 hb⟩
+  · rintro ⟨r0, h0, ha, hb⟩
+    exact ⟨sortProtos r0, mem_mergeSets.2 ⟨r0, h0, rfl⟩, mem_sortProtos.2 ha, mem_sortProtos.2 hb⟩
+
+/-- D16 on the code before the fix: one forward pass leaves `{2,3}` apart from `{1,3,5}` -/
+def singlePassMerge (groups : List (List Nat)) : List (List Nat) :=
+  let rec go : Nat → List (List Nat) → List (List Nat)
+    | 0, l => l
+    | _, [] => []
+    | n + 1, first :: rest =>
+      if first.isEmpty then first :: go n rest
+      else let p := absorbPass first rest; p.1 :: go n p.2.1
+  (go groups.length groups).filter fun g => !g.isEmpty
+
+theorem D16_single_pass_not_transitive :
+    singlePassMerge [[1, 5], [2, 3], [3, 5]] = [[1, 5, 3], [2, 3]] ∧
+    mergeSetsCore (fun g => minList (g.map Int.ofNat)) [[1, 5], [2, 3], [3, 5]] = [[1, 5, 3, 2]] := by
+  decide
+
+/-! ### 2. every protocluster lies in a candidate; the final sanity check cannot fire -/
+
+/-- every protocluster supplied is a member of at least one returned candidate -/
+theorem every_protocluster_in_a_candidate (ps : List Proto) (wrap : Option Int) (cs : List Cand)
+    (h : formation ps wrap = .ok cs) : coversAll ps cs = true := by
+  obtain ⟨cs0, h0, e⟩ := formation_ok_core h
+  subst e
+  apply coversAll_iff.2
+  intro p hp
+  obtain ⟨c, hc, hpc⟩ := formationCore_cover h0 p hp
+  exact ⟨c, mem_sortCands.2 hc, hpc⟩
+
+/-- … and this is not owed to the final `assert len(assigned) == len(protoclusters)`: whenever the
+    body of the function completes, the assertion holds and the result is the sorted list built
+    (errors of the body are passed on unchanged) -/
+theorem final_sanity_check_never_fires (ps : List Proto) (wrap : Option Int) (hn : ps.Nodup) :
+    (∀ cs0, formationCore ps wrap = .ok cs0 → formation ps wrap = .ok (sortCands cs0)) ∧
+    (∀ e, formationCore ps wrap = .error e → formation ps wrap = .error e) :=
+  ⟨fun _ h => formation_eq_core h hn, fun _ h => formation_error_core h⟩
+
+/-! ### 3. a candidate's location is the connected span of its members -/
+
+/-- every returned candidate's location is `connect_locations` of its members' locations and
+    contains each member's location; members are protoclusters of the input, none twice; singles have
+    one member, all other kinds at least two -/
+theorem candidate_location_covers_members (ps : List Proto) (wrap : Option Int) (cs : List Cand)
+    (hn : ps.Nodup) (h : formation ps wrap = .ok cs) :
+    locationsOK wrap cs = true ∧ membersOK ps cs = true ∧ sizesOK cs = true := by
+  obtain ⟨cs0, h0, e⟩ := formation_ok_core h
+  subst e
+  have hwf := formationCore_wf h0 hn
+  refine ⟨locationsOK_iff.2 ?_, membersOK_iff.2 ?_, sizesOK_iff.2 ?_⟩
+  · intro c hc
+    have := hwf c (mem_sortCands.1 hc)
+    exact ⟨this.ok.loc_eq, this.ok.contains⟩
+  · intro c hc
+    have := hwf c (mem_sortCands.1 hc)
+    exact ⟨this.ok.nonempty, this.fromInput, this.nodup⟩
+  · intro c hc
+    exact (hwf c (mem_sortCands.1 hc)).size
+
+/-- on a linear record the location is exactly the hull: from the smallest start to the largest end
+    of the members (C04 `connect_line_is_hull`) -/
+theorem candidate_location_exact_on_line (ps : List Proto) (cs : List Cand) (hn : ps.Nodup)
+    (hlin : ∀ p, p ∈ ps → p.loc.parts ≠ [] ∧ bridgesOrigin p.loc = false)
+    (h : formation ps none = .ok cs) :
+    ∀ c, c ∈ cs → c.loc = .simple ⟨minList (c.members.map (·.loc.start)), maxList (c.members.map (·.loc.end)),
+                                   commonStrand (c.members.map (·.loc))⟩ := by
+  obtain ⟨cs0, h0, e⟩ := formation_ok_core h
+  subst e
+  intro c hc
+  have hwf := formationCore_wf h0 hn c (mem_sortCands.1 hc)
+  have hline : ∀ l, l ∈ c.members.map (·.loc) → l.parts ≠ [] ∧ bridgesOrigin l = false := by
+    intro l hl
+    obtain ⟨m, hm, e⟩ := List.mem_map.1 hl
+    subst e
+    exact hlin m (hwf.fromInput m hm)
+  have := connect_line (c.members.map (·.loc)) (by simpa using hwf.ok.nonempty) hline
+  rw [hwf.ok.loc_eq] at this
+  injection this with this
+  rw [this]
+  simp [List.map_map, Function.comp_def]
+
+/-! ### non-vacuity -/
+
+/-- D19's layout on the repaired code: the origin-spanning protocluster is de-duplicated against
+    the neighbouring candidate with the same coordinates, `single{B}` stays -/
+example :
+    summary (formation [⟨0, .compound [⟨850, 1000, .fwd⟩, ⟨0, 150, .fwd⟩], .compound [⟨950, 1000, .fwd⟩, ⟨0, 50, .fwd⟩], []⟩,
+                ⟨1, .simple ⟨90, 130, .fwd⟩, .simple ⟨100, 120, .fwd⟩, []⟩] (some 1000)) =
+    some [(.neighbouring, [0, 1]), (.single, [1])] := by decide +kernel
+
+/-- a linear record with a hybrid pair, a single chained to it through another single (D501) -/
+example :
+    summary (formation [⟨0, .simple ⟨280, 310, .fwd⟩, .simple ⟨280, 310, .fwd⟩, [1]⟩,
+                ⟨1, .simple ⟨380, 440, .fwd⟩, .simple ⟨400, 420, .fwd⟩, []⟩,
+                ⟨2, .simple ⟨320, 390, .fwd⟩, .simple ⟨340, 370, .fwd⟩, [1]⟩,
+                ⟨3, .simple ⟨430, 490, .fwd⟩, .simple ⟨450, 470, .fwd⟩, []⟩] none) =
+    some [(.neighbouring, [0, 2, 1, 3]), (.hybrid, [0, 2]), (.single, [1]), (.single, [3])] := by decide +kernel
 
 end ASV.C05
